@@ -37,6 +37,9 @@ def run_check(prop, wt, env):
     return r.returncode, r.stdout
 
 
+MATRIX = False
+
+
 def worker(i, jobs, results, all_props):
     wt = "/tmp/wt/val%d" % i
     sh("git -C %s worktree remove --force %s" % (REPO, wt))
@@ -61,6 +64,12 @@ def worker(i, jobs, results, all_props):
                 rc, out = run_check(prop, wt, env)
                 verdict = {1: "reported", 0: "**MISSED**", 2: "no verdict (does not build)"}.get(rc, "rc=%d" % rc)
                 res = (kind, name, prop, verdict, first_report(out)[:160])
+                if MATRIX and name.startswith("seeded/"):
+                    fired = [prop] if rc == 1 else []
+                    for p in all_props:
+                        if p != prop and run_check(p, wt, env)[0] == 1:
+                            fired.append(p)
+                    res = (kind, name, prop, verdict, "fires: " + " ".join(sorted(fired)))
             else:
                 bad = []
                 for p in all_props:
@@ -81,7 +90,10 @@ def main():
     ap.add_argument("-j", type=int, default=4)
     ap.add_argument("--only", default="")
     ap.add_argument("--write", action="store_true")
+    ap.add_argument("--matrix", action="store_true", help="for seeded changes: run every check and list the ones that fire")
     a = ap.parse_args()
+    global MATRIX
+    MATRIX = a.matrix
     man = json.load(open(os.path.join(V, "MANIFEST.json")))
     all_props = [c["property_id"] for c in man["checks"]]
     jobs = queue.Queue()
